@@ -150,15 +150,63 @@ def slpp_rule(F, G, rep):
                 cons = safety.Consume(F, G)
                 cons.in_loop = True
                 rep.ob("T.loop", cons.must(lp["body"]), fn, "loop", "%s: loop in the .slpp reader does not consume input on every iteration" % tir.sp(lp), tir.sp(lp))
-    rep.floor("stream-driven loops in the .slpp reader", n, 2)
+    rep.floor("stream-driven loops in the .slpp reader", n, 1)      # 2 on the pinned tree (entries, record batches); either may be an iterator adaptor
     game = peppifmt.final_game(F)
     for slot in ("start", "frames"):
         rep.ob("D.slot-required", slot in game and peppifmt.slot_required(game[slot]), peppifmt.READ, slot, "Ok must require the `%s` entry (a cut archive must not yield a partial game)" % slot)
     b = F.body(peppifmt.READ)
     req = any(n.get("k") == "Try" and strip(n["e"]).get("k") == "MethodCall" and strip(n["e"])["method"] in ("ok_or", "ok_or_else") and tir.place(strip(n["e"])["recv"]) == "peppi" for n in tir.walk(b["tir"]["value"]))
     rep.ob("D.slot-required", req, peppifmt.READ, "peppi", "Ok must require the peppi.json entry")
+    # a cut inside frames.arrow on an IPC message boundary shows up only as StreamState::Waiting (arrow2 never ends the stream
+    # there, tar::Entry ends silently): every match over a StreamState must turn Waiting into an error — dropping or skipping
+    # it (a wildcard arm yielding None / continue) polls the exhausted stream forever
+    import errdrop
+    n_ss = 0
+    for o in sorted(R):
+        bb = F.body(o)
+        if bb is None or not o.startswith("io::peppi::"):
+            continue
+        for m in tir.walk(bb["tir"]["value"]):
+            if m.get("k") != "Match" or "StreamState" not in (m["scrut"].get("ty") or ""):
+                continue
+            n_ss += 1
+            for a in m["arms"]:
+                pats = a["pat"]["pats"] if a["pat"].get("k") == "Or" else [a["pat"]]
+                covers = False
+                for q in pats:
+                    txt = tir.pat(q)
+                    leaves = [x for x in tir.walk_pat(q)] if hasattr(tir, "walk_pat") else None
+                    if "Waiting" in txt:
+                        covers = True
+                    # a wildcard / binding where the StreamState sits (the whole pattern, or the payload of Ok(..))
+                    qq = q
+                    while qq.get("k") == "Ref":
+                        qq = qq["pat"]
+                    if qq.get("k") in ("Wild", "Bind") and not qq.get("sub"):
+                        covers = True
+                    if qq.get("k") == "TupleStruct" and (qq.get("path") or "").endswith("::Ok") and len(qq.get("pats", [])) == 1 and qq["pats"][0].get("k") in ("Wild", "Bind"):
+                        covers = True
+                if covers:
+                    rep.ob("D.arrow-waiting", errdrop.error_valued(a["body"]), o, "Waiting", "%s: an exhausted Arrow stream (StreamState::Waiting) must be an error; this arm does not return one" % tir.sp(a["body"]), tir.sp(a["body"]))
+    rep.floor("matches over arrow2 StreamState in the .slpp reader", n_ss, 1)
+    # a cut inside a raw / json entry hands the entry readers a *short* stream (tar::Entry ends silently): every panic-capable
+    # site in the hand-written entry readers (everything in io::peppi::de except the Arrow batch handling, whose input arrow2
+    # has validated) must be impossible by range reasoning — an index, split or unwrap on the bytes read is a panic on a cut
+    import panics
+    ctx = panics.Ctx(F, G)
+    sidx = safety.span_index(F, R)
+    n_entry = 0
+    for o in sorted(R):
+        if not o.startswith("io::peppi::de") or o.endswith("read_arrow_frames"):
+            continue
+        for st in G.sites(o):
+            n_entry += 1
+            why = panics.discharge_R(ctx, st) or safety.discharge_tir(F, ctx, o, st, sidx)
+            rep.ob("P.slpp-entry", bool(why), o, "%s:%s" % (st["kind"], reach.short(st["what"].split(" -> ")[0])),
+                   "%s: %s (%s) can panic on a truncated entry; reachable from %s" % (reach.spstr(st["sp"]), st["kind"], reach.short(st["what"]), o), reach.spstr(st["sp"]))
+    rep.counts["slpp_entry_reader_sites"] = n_entry
     # panic sites reachable from the .slpp reader that a *corrupted* (not truncated) archive could trigger: informational
-    sites = sum(len(G.sites(o)) for o in R if "from_struct_array" in o or o.startswith("io::peppi::de"))
+    sites = sum(len(G.sites(o)) for o in R if "from_struct_array" in o or o.endswith("read_arrow_frames"))
     rep.note("%d assert/unwrap/expect/index sites in peppi::de + from_struct_array are reachable only from a corrupted archive (a truncated entry gives arrow2 a short body, which its length validation rejects before any batch is produced — library behaviour, listed as an assumption); they are outside this property's quantifier" % sites)
     rep.counts["slpp_panic_sites_informational"] = sites
 
